@@ -535,6 +535,7 @@ func (rs *rootSet) walk(v ssa.Value, depth int) {
 		rs.add(x)
 		rs.walk(x.X, depth+1)
 	case *ssa.Slice:
+		rs.add(x)
 		rs.walk(x.X, depth+1)
 	case *ssa.Convert:
 		rs.walk(x.X, depth+1)
@@ -559,9 +560,50 @@ func (rs *rootSet) walk(v ssa.Value, depth int) {
 	case *ssa.Range:
 		rs.add(x)
 		rs.walk(x.X, depth+1)
+	case *ssa.Call:
+		rs.add(x)
+		if _, isBuiltin := x.Call.Value.(*ssa.Builtin); isBuiltin {
+			for _, a := range x.Call.Args {
+				rs.walk(a, depth+1)
+			}
+		}
+	case *ssa.Alloc:
+		rs.add(x)
+		// whole-object stores into a local aggregate (e.g. header := block.GetHeader())
+		if refs := x.Referrers(); refs != nil {
+			for _, ref := range *refs {
+				switch r := ref.(type) {
+				case *ssa.Store:
+					if r.Addr == ssa.Value(x) {
+						rs.walk(r.Val, depth+1)
+					}
+				case *ssa.FieldAddr:
+					// composite literal built in place: stores into its fields
+					if r.X == ssa.Value(x) {
+						rs.walkStoresInto(r, depth+1)
+					}
+				case *ssa.IndexAddr:
+					if r.X == ssa.Value(x) {
+						rs.walkStoresInto(r, depth+1)
+					}
+				}
+			}
+		}
 	default:
-		// Call, Parameter, Const, Alloc, Global, FreeVar, MakeSlice, MakeMap, Function, ...
+		// Call, Parameter, Const, Global, FreeVar, MakeSlice, MakeMap, Function, ...
 		rs.add(v)
+	}
+}
+
+func (rs *rootSet) walkStoresInto(addr ssa.Value, depth int) {
+	refs := addr.Referrers()
+	if refs == nil {
+		return
+	}
+	for _, ref := range *refs {
+		if st, ok := ref.(*ssa.Store); ok && st.Addr == addr {
+			rs.walk(st.Val, depth)
+		}
 	}
 }
 
@@ -702,7 +744,9 @@ type Edge struct {
 }
 
 type CallGraph struct {
-	P     *Program
+	P *Program
+	// Resolve, when set, overrides the resolution of interface invokes (return ok=false to fall back).
+	Resolve func(from *ssa.Function, cc *ssa.CallCommon) ([]*ssa.Function, bool)
 	impls map[*types.Func][]*ssa.Function // interface method -> module implementations
 	named []types.Type
 	out   map[*ssa.Function][]Edge
@@ -779,6 +823,14 @@ func (g *CallGraph) Callees(fn *ssa.Function) []Edge {
 				continue
 			}
 			if cc.IsInvoke() {
+				if g.Resolve != nil {
+					if fs, ok := g.Resolve(fn, cc); ok {
+						for _, f := range fs {
+							es = append(es, Edge{fn, in, f})
+						}
+						continue
+					}
+				}
 				for _, f := range g.implementations(cc.Method) {
 					es = append(es, Edge{fn, in, f})
 				}
